@@ -168,6 +168,19 @@ class SerdeInterp(PlaceInterp):
             a = deref(self.val(e['args'][0], env))
             env[peel(e['recv'])['path']] += a if isinstance(a, str) else chr(a)
             return ()
+        if name in ('push', 'push_str') and len(e.get('args', [])) == 1 and peel(e['recv']).get('k') in ('field', 'deref', 'path'):
+            from .places import SlotRef
+            try:
+                slot = self.val(e['recv'], env)
+            except Unanalysable:
+                slot = None
+            while isinstance(slot, SlotRef) and isinstance(slot.get(), SlotRef):
+                slot = slot.get()
+            if isinstance(slot, SlotRef) and isinstance(slot.get(), str):
+                # a `&mut String` held in a field or a parameter: the text behind the reference grows
+                a = deref(self.val(e['args'][0], env))
+                slot.set(slot.get() + (a if isinstance(a, str) else chr(a)))
+                return ()
         if name == 'parse' and not e.get('args') and 'Datetime' in (e.get('t') or ''):
             txt = deref(self.val(e['recv'], env))
             if isinstance(txt, str):
